@@ -18,7 +18,8 @@ Predicates (on the implementation's outputs, independent of the model): same int
 => bit-identical results; int-seeded call leaves np.random.get_state() untouched; two generators seeded
 identically => identical results and identical final generator states; fit twice on one estimator => identical
 results and the constructor argument is still the seed; RNG-free functions: repeated calls identical, no draw; two identically
-seeded generators threaded through the same multi-step call sequence (sequential and interleaved) agree step by step."""
+seeded generators threaded through the same multi-step call sequence (sequential and interleaved) agree step by step; a second
+interpreter (other PYTHONHASHSEED, other global state, no interposition) returns the same bits for the same int-seeded calls."""
 import random, re, threading
 import numpy as np
 from harness import common as C
@@ -414,6 +415,9 @@ def configs(tier, rng):
                            entry_point="tensorly.decomposition.parafac2"))
         out.append(Cfg(f"parafac2[{ns},nn_modes,randomized]", "E_parafac2", opts_lit((), 2, "random", "randomized_svd", False, 0, 2, ns),
                        lambda rs, slices=slices: D.parafac2(slices, 2, n_iter_max=2, init="random", svd="randomized_svd", random_state=rs, nn_modes=[0, 2], n_iter_parafac=2),
+                       entry_point="tensorly.decomposition.parafac2"))
+        out.append(Cfg(f"parafac2[{ns},nn_modes,svd,randomized]", "E_parafac2", opts_lit((), 2, "svd", "randomized_svd", False, 0, 1, ns),
+                       lambda rs, slices=slices: D.parafac2(slices, 2, n_iter_max=1, init="svd", svd="randomized_svd", random_state=rs, nn_modes=[0, 2], n_iter_parafac=2),
                        entry_point="tensorly.decomposition.parafac2"))
         out.append(Cfg(f"parafac2[{ns},linesearch,randomized]", "E_parafac2", opts_lit((), 2, "svd", "randomized_svd", False, 0, 9, ns),
                        lambda rs, slices=slices: D.parafac2(slices, 2, n_iter_max=9, init="svd", svd="randomized_svd", random_state=rs, linesearch=True, n_iter_parafac=2, tol=1e-13),
@@ -1392,6 +1396,106 @@ STATIC_NOT_REQUIRED = {"CP_PLSR"}
 HEADER_STATIC = HEADER + "\nDefinition failing := failing_static."
 
 
+HEADER_TABLE = HEADER + "\nDefinition failing := failing_table."
+
+
+def stored_generators(ex):
+    """the model's standing assumption "library code keeps no generator object across calls", checked on the source: no function
+    or method (constructors included) assigns a RESOLVED generator -- check_random_state(...), RandomState(...), default_rng(...),
+    or a local name bound from one of these -- to an attribute, a subscript, or a name declared global / nonlocal.  (Storing the
+    raw random_state argument, as every estimator's __init__ does, is what keeps fit reproducible.)"""
+    out = []
+    makers = ("check_random_state", "RandomState", "default_rng", "Generator")
+    for i, (rel, f, cls) in sorted(ex.defs.items()):
+        if not isinstance(f, ast.FunctionDef):
+            continue
+        bound, escaping = set(), set()
+        for n in ast.walk(f):
+            if isinstance(n, (ast.Global, ast.Nonlocal)):
+                escaping.update(n.names)
+
+        def resolved(v):
+            return (isinstance(v, ast.Call) and (_dotted(v.func) or "").split(".")[-1] in makers) or (isinstance(v, ast.Name) and v.id in bound)
+        for n in ast.walk(f):     # ast.walk is breadth-first: good enough for "bound somewhere in this function"
+            if isinstance(n, ast.Assign) and len(n.targets) == 1 and isinstance(n.targets[0], ast.Name) and \
+                    isinstance(n.value, ast.Call) and (_dotted(n.value.func) or "").split(".")[-1] in makers:
+                bound.add(n.targets[0].id)
+        for n in ast.walk(f):
+            if isinstance(n, ast.Assign) and resolved(n.value):
+                for t in n.targets:
+                    if isinstance(t, (ast.Attribute, ast.Subscript)) or (isinstance(t, ast.Name) and t.id in escaping):
+                        out.append((i, f"line {n.lineno}: {ast.unparse(n)[:100]}"))
+    return out
+
+
+def crs_table_case(ex):
+    """the if / elif chain of Backend.check_random_state, re-read from the source, as a decision table of Model/Draws.v
+    (crs_test * crs_action list + default action).  Fail closed: whatever is not understood becomes TUnknown / AUnknown,
+    which Corr.C16.crs_table_ok rejects."""
+    i = "tensorly/backend/core.py::Backend.check_random_state"
+    if i not in ex.defs:
+        return None, "definition not found"
+    rel, f, _ = ex.defs[i]
+    params = [a.arg for a in f.args.posonlyargs + f.args.args if a.arg != "self"]
+    if len(params) != 1:
+        return "(0%nat, [(TUnknown, AUnknown)], AUnknown)", "unexpected signature"
+    arg = params[0]
+
+    def is_arg(e):
+        return isinstance(e, ast.Name) and e.id == arg
+
+    def test(e):
+        if isinstance(e, ast.Compare) and len(e.ops) == 1 and isinstance(e.ops[0], ast.Is) and is_arg(e.left) and \
+                isinstance(e.comparators[0], ast.Constant) and e.comparators[0].value is None:
+            return "TIsNone"
+        if isinstance(e, ast.Call) and _dotted(e.func) == "isinstance" and len(e.args) == 2 and not e.keywords and is_arg(e.args[0]):
+            ts = e.args[1].elts if isinstance(e.args[1], ast.Tuple) else [e.args[1]]
+            ds = [ex.norm_dotted(rel, _dotted(t) or "?") for t in ts]
+            if all(d in ("int", "numpy.integer", "numbers.Integral") for d in ds) and "int" in ds:
+                return "TIsInt"
+            if ds in (["numpy.random.RandomState"], ["numpy.random.mtrand.RandomState"]):
+                return "TIsRandomState"
+        return "TUnknown"
+
+    def action(stmts):
+        stmts = [x for x in stmts if not (isinstance(x, ast.Expr) and isinstance(x.value, ast.Constant))]
+        if len(stmts) != 1:
+            return "AUnknown"
+        st = stmts[0]
+        if isinstance(st, ast.Raise):
+            return "ARaise"
+        if isinstance(st, ast.Return) and st.value is not None:
+            v = st.value
+            if is_arg(v):
+                return "ASelf"
+            if ex.norm_dotted(rel, _dotted(v) or "?") == "numpy.random.mtrand._rand":
+                return "AGlobalGen"
+            if isinstance(v, ast.Call) and ex.norm_dotted(rel, _dotted(v.func) or "?") in ("numpy.random.RandomState", "numpy.random.mtrand.RandomState") \
+                    and len(v.args) == 1 and not v.keywords:
+                a0 = v.args[0]
+                if is_arg(a0) or (isinstance(a0, ast.Call) and _dotted(a0.func) == "int" and len(a0.args) == 1 and is_arg(a0.args[0])):
+                    return "AFreshSeeded"
+        return "AUnknown"
+
+    body = [x for x in f.body if not (isinstance(x, ast.Expr) and isinstance(x.value, ast.Constant))]
+    rows, dflt = [], "AUnknown"
+    while body:
+        st = body[0]
+        if isinstance(st, ast.If):
+            rows.append((test(st.test), action(st.body)))
+            if st.orelse:
+                if len(body) > 1 and not (len(st.orelse) == 1 and isinstance(st.orelse[0], ast.If)):
+                    rows.append(("TUnknown", "AUnknown"))       # an else branch followed by more code: not a plain chain
+                body = list(st.orelse) + body[1:] if (len(st.orelse) == 1 and isinstance(st.orelse[0], ast.If)) else (list(st.orelse) if len(body) == 1 else body[1:])
+            else:
+                body = body[1:]
+        else:
+            dflt = action(body)
+            break
+    lit = "[" + "; ".join(f"({t}, {a})" for t, a in rows) + "]"
+    return f"(0%nat, {lit}, {dflt})", f"{lit} default {dflt}"
+
+
 HEADER_RNGFREE = HEADER + "\nDefinition failing := failing_rngfree."
 # functions WITHOUT random choices (property statement: SVD-initialised decompositions, tensor algebra): bare name,
 # constants of the call (None = the defaults of the signature only; NOT_A_SCALAR = a user-supplied (weights, factors))
@@ -1730,6 +1834,82 @@ def instance_sequences(cfgs, seeds, rng, chk, n):
         chk.count(key=("instance-sequence", tuple(names)), nontrivial=True)
 
 
+# ----------------------------------------------------------------------------- a second PROCESS (Props C16_two_processes)
+def digest(r):
+    import hashlib
+    if r[0] != "ok":
+        return f"{r[0]}:{str(r[1])[:60]}"
+    return hashlib.sha256(repr(flat(r[1])).encode()).hexdigest()
+
+
+def other_process_main():
+    """runs in a fresh interpreter with another PYTHONHASHSEED and WITHOUT the logging interposition: prints the digests of
+    the requested int-seeded calls"""
+    import json as _json, sys as _sys
+    req = _json.loads(_sys.stdin.read())
+    np.random.seed(req["global_seed"]); np.random.rand(7)
+    cf = {c.name: c for c in configs(req["tier"], random.Random(0))}
+    out = {}
+    for name, seed in req["calls"]:
+        c = cf.get(name)
+        out[f"{name}|{seed}"] = digest(C.call_impl(c.fn, int(seed), timeout=60)) if c else "missing"
+    print("C16-OTHER-PROCESS " + _json.dumps(out))
+
+
+def other_process_start(tier, calls, global_seed):
+    import subprocess, sys as _sys, json as _json, os as _os
+    env = dict(_os.environ, PYTHONHASHSEED=str(1 + global_seed % 1000))
+    p = subprocess.Popen([_sys.executable, "-c", "from harness.props import C16; C16.other_process_main()"], stdin=subprocess.PIPE, stdout=subprocess.PIPE,
+                         stderr=subprocess.PIPE, text=True, env=env, cwd=C.VERIF)
+    p.stdin.write(_json.dumps({"tier": tier, "calls": calls, "global_seed": global_seed})); p.stdin.close()
+    return p
+
+
+_MINE = {}
+
+
+def other_process_collect(p, calls, cfgs, chk, tier, global_seed, timeout=240):
+    """compares the digests computed by the other process with this process's (same configuration, same int seed)"""
+    import json as _json
+    try:
+        p.wait(timeout=timeout)
+        out = p.stdout.read()
+    except Exception:   # noqa  (loaded machine: counted, never a difference)
+        p.kill(); chk.hist("second process", "timed out (not compared)"); return 0
+    line = [l for l in out.splitlines() if l.startswith("C16-OTHER-PROCESS ")]
+    if not line:
+        chk.broken.append({"what": "second process produced no result", "detail": (p.stderr.read() or out)[-400:]}); return 0
+    theirs = _json.loads(line[-1][len("C16-OTHER-PROCESS "):])
+    by = {c.name: c for c in cfgs}
+    bad = 0
+    for name, seed in calls:
+        if (name, seed) not in _MINE:
+            _MINE[(name, seed)] = digest(C.call_impl(by[name].fn, int(seed), timeout=60))
+        mine = _MINE[(name, seed)]
+        chk.cov["evaluations"] += 1
+        chk.count(key=("second-process", name), nontrivial=True)
+        chk.hist("second process", "compared")
+        t = theirs.get(f"{name}|{seed}")
+        if t is None or t == "missing" or "timeout" in str(t) or "timeout" in mine:
+            continue
+        if t != mine:
+            # confirm before reporting: a third interpreter started exactly like the second one must reproduce ITS digest
+            q = other_process_start(tier, [[name, seed]], global_seed)
+            try:
+                q.wait(timeout=120)
+                l3 = [l for l in q.stdout.read().splitlines() if l.startswith("C16-OTHER-PROCESS ")]
+                t3 = _json.loads(l3[-1][len("C16-OTHER-PROCESS "):]).get(f"{name}|{seed}") if l3 else None
+            except Exception:   # noqa
+                q.kill(); t3 = None
+            chk.hist("second process", "difference re-checked in a third interpreter")
+            if t3 != t:
+                continue
+            bad += 1
+            chk.finding(by[name].entry_point, {"config": name, "random_state": "int", "seed": int(seed), "process": "second interpreter, other PYTHONHASHSEED, no interposition"},
+                        "the same call with the same integer seed returns different results in two different processes", "C16_two_processes")
+    return bad
+
+
 def run_shards_retry(cases, chk, shard=150, retries=3):
     """common.run_case_shards + re-evaluation of shards that were KILLED (out-of-memory killer / timeout on the
     shared machine: return code -9 / 137 / 124, no Coq error message).  A shard that Coq rejects or that reports
@@ -1770,6 +1950,12 @@ def run(chk):
     try:
         cfgs = configs(tier, rng)
         nskip = 0
+        # a second interpreter computes the same int-seeded calls concurrently (different hash seed, different global state)
+        pick2 = [c for c in cfgs if c.seedable and "int" in c.kinds and not c.rng_free]
+        pick2 = [pick2[i] for i in sorted(rng.sample(range(len(pick2)), min(len(pick2), 30 if tier == "quick" else 150)))]
+        calls2 = [[c.name, seeds[1 + (i % (len(seeds) - 1))]] for i, c in enumerate(pick2)]
+        gseeds2 = [rng.randrange(2 ** 31) for _ in range(2)]      # two interpreters, two hash seeds
+        procs2 = [other_process_start(tier, calls2, g) for g in gseeds2]
         # corpus first: the historical defects of this property and the gaps the mutation self-tests exposed, with fixed seeds
         import glob, json as _json, os as _os
         by_name = {c.name: c for c in cfgs}
@@ -1803,6 +1989,8 @@ def run(chk):
             chk.hist("entry point", cfg.entry_point)
         interleaved_check(cfgs, seeds, rng, chk)
         instance_sequences(cfgs, seeds, rng, chk, 6 if tier == "quick" else 40)
+        for p2, g2 in zip(procs2, gseeds2):
+            other_process_collect(p2, calls2, cfgs, chk, tier, g2)
         # check_random_state itself
         import tensorly as tl
         G = _Installed.G
@@ -1880,7 +2068,27 @@ def run(chk):
         for i in sorted(rfail):
             chk.disagreement("corr:C16-static (a function listed as making no random choice: its transcribed source contains a draw)",
                              {"function": rnames[i], "identified_global_sources": [f"{w}: {m}" for (w, m) in ex.flags][:12], "extracted_skeleton": rcases[i][:1500]})
-    chk.checker_cmds.append("coqc (vm_compute) on generated build/cases/C16/*.v: Corr.C16.failing, Corr.C16.failing_static, Corr.C16.failing_rngfree")
+        kept = stored_generators(ex)
+        chk.cov["static_generators_stored_beyond_a_call"] = len(kept)
+        chk.count(key=("static-stored-generators",), nontrivial=True)
+        for where, what in kept:
+            chk.disagreement("corr:C16-static (model assumption: no generator object is kept across calls -- a resolved generator is stored in an attribute / subscript / global)",
+                             {"function": where, "statement": what})
+        # check_random_state itself: its decision chain re-read from the source
+        tcase, tdesc = crs_table_case(ex)
+        chk.cov["static_check_random_state_table"] = tdesc
+        if tcase is None:
+            chk.broken.append({"what": "corr:C16-static: Backend.check_random_state not found in the source", "detail": tdesc})
+        else:
+            tfail, tn, tbroken = C.run_case_shards("C16", HEADER_TABLE, "tcase", [tcase], shard=10, tag="crstable")
+            chk.count(key=("static-crs-table",), nontrivial=True, n=tn)
+            for b in tbroken:
+                chk.broken.append({"what": "correspondence corr:C16-static (check_random_state table) shard not evaluated", "detail": b})
+            for i in sorted(tfail):
+                chk.disagreement("corr:C16-static (the if / elif chain of Backend.check_random_state read from the source is not a table that crs_table_ok accepts: "
+                                 "None -> the global generator, int -> a fresh RandomState(seed), RandomState -> itself, anything else -> raise)",
+                                 {"function": "tensorly/backend/core.py::Backend.check_random_state", "table_read_from_the_source": tdesc})
+    chk.checker_cmds.append("coqc (vm_compute) on generated build/cases/C16/*.v: Corr.C16.failing, Corr.C16.failing_static, Corr.C16.failing_rngfree, Corr.C16.failing_table")
     chk.cov["traces_validated_against_impl"] = n_eval
     chk.cov["exhaustive"] = False
     chk.cov["skipped_configurations"] = nskip
@@ -1925,6 +2133,12 @@ def replay(payload):
         if str(inp.get("config", "")).startswith("callback") or inp.get("interleaving"):
             cfgs = configs("thorough", rng)
             interleaved_check(cfgs, [int(inp.get("seed") or 0), 1], rng, chk)
+        elif inp.get("process"):
+            cfgs = configs("thorough", rng) + configs("quick", rng)
+            calls = [[inp["config"], int(inp.get("seed") or 0)]]
+            bad2 = 0
+            for gs in (5, 17, 123, 700969790 + 7):     # several hash seeds: an order that happens to coincide with this process's is not a pass
+                bad2 += other_process_collect(other_process_start("thorough", calls, gs), calls, [c for c in cfgs if c.name == inp["config"]][:1], chk, "thorough", gs)
         elif inp.get("sequence"):
             allc = {c.name: c for t in ("thorough", "quick") for c in configs(t, random.Random(0))}
             if any(n not in allc for n in inp["sequence"]):
